@@ -55,6 +55,10 @@ SPELLINGS = (
     ('abs_sub_dotdot_dotdot', '{W}/base/sand/sub/../../{F}', 'outside', 'parent'),
     ('abs_inside_dotdot', '{W}/base/sand/sub/../{F}', 'inside', 'sand'),
     ('abs_other_tree_sandbox', '{W}-A/base/sand/{F}', 'outside', 'sand'),
+    # percent-encoded TWICE: decoded once it is a literal directory name '%2e%2e' that does not exist; a second
+    # decoding anywhere between the check and the open would make it a parent step
+    ('pct2_dots', '%252e%252e/other/{F}', 'outside', 'other'),
+    ('abs_pct2_dots', 'file://{W}/base/sand/%252e%252e/other/{F}', 'outside', 'other'),
     ('http', 'http://sim.test/r/{F}', 'remote', 'remote'),
     ('https_upper', 'HTTPS://sim.test/r/{F}', 'remote', 'remote'),
     ('ftp', 'ftp://sim.test/r/{F}', 'remote', 'remote'),
@@ -185,8 +189,10 @@ class C12(Check):
         # hints for a namespace the meta-schema owns are never to be followed: "not fetched under allow='all'" is
         # the correct behaviour there, not vacuity
         always = ('hint_meta_namespace', 'hint_on_meta_element')
-        self.live = [p for p, r in zip(pairs, res) if r or p[0] in always]
-        self.vacuous = [list(p) for p, r in zip(pairs, res) if not r and p[0] not in always]
+        # (the twice-encoded spellings name nothing that exists: "not fetched" is the correct behaviour in every mode)
+        always_spell = ('pct2_dots', 'abs_pct2_dots')
+        self.live = [p for p, r in zip(pairs, res) if r or p[0] in always or p[1] in always_spell]
+        self.vacuous = [list(p) for p, r in zip(pairs, res) if not r and p[0] not in always and p[1] not in always_spell]
         self.points = [(a, m, s) for a in ALLOW for (m, s) in self.live]
         rng = core.sub_rng(master_seed, 'c12-order')
         rng.shuffle(self.points)
